@@ -54,7 +54,8 @@ RULE = (
     "trailing dot / underscore / IPv4 / IPv6 literal / absent with IPv4, IPv6, v4-mapped or scoped local address) x (server "
     "address: none / same or other host name / U-label / IPv4 / IPv6) x (upstream certificate: none / option off / CN only / CN+SAN / "
     "mixed SAN types incl. wildcard, IP, email, URI, directoryName / CN with spaces, non-ASCII, empty label, 64-byte label / no CN / "
-    "organization / CRL distribution point valid, unparsable, ldap, scheme-less) x (CA: mitmproxy default / custom root + "
+    "organization / CRL distribution point valid, unparsable, ldap, scheme-less / SANs mirroring the connection's own identities in "
+    "the wrong GeneralName type (IP literal as dNSName), in another letter case, or duplicated across CN and SAN) x (CA: mitmproxy default / custom root + "
     "intermediate with non-SHA1 key identifier) x (observation: get_cert, or tls_start_client + in-memory strict handshake). "
     "distinct = that class tuple; non-trivial = a certificate was produced and both legs of strict verification were evaluated, "
     "or get_cert raised"
@@ -140,14 +141,57 @@ def gen_addr(r, sni):
     return k, (rhost(r).upper(), 8443)
 
 
-def gen_upstream(r, pki, sni):
+def _swapcase_some(r, s):
+    out = "".join(c.upper() if c.islower() and r.random() < 0.6 else c for c in s)
+    return out if out != s else s.upper()
+
+
+def mirror_sans(r, idents):
+    """SANs that repeat the connection's own identities (SNI or local address, server address) inside the upstream
+    certificate: the same value in the 'wrong' GeneralName type (an IP literal as dNSName -- a common mis-issuance),
+    the same DNS name in another case, and the correctly typed duplicate, in random order."""
+    out = []
+    for v in idents:
+        bare = v.partition("%")[0]
+        if _is_ip(bare):
+            forms = [f"dns:{bare}"]  # wrong type
+            if r.random() < 0.4:
+                forms.append(f"ip:{bare}")  # and the right one
+            if ":" in bare and r.random() < 0.3:
+                forms.append("dns:" + ipaddress.ip_address(bare).exploded)
+        else:
+            a = dns_norm(v).rstrip(".")
+            if not a or any(len(x) > 63 or not x for x in a.split(".")):
+                continue
+            forms = ["dns:" + _swapcase_some(r, a)]
+            if r.random() < 0.4:
+                forms.append("dns:" + a)
+        out.extend(forms)
+    r.shuffle(out)
+    return out
+
+
+def gen_upstream(r, pki, sni, sock="127.0.0.1", addr=None):
     """-> (class, upstream cryptography cert or None, use_option: bool)"""
     k = r.choice(["none", "none", "option-off", "cn-dns", "cn+san", "san-mixed", "san-exotic", "cn-spaces", "cn-nonascii", "cn-emptylabel", "cn-label64",
-                  "cn-64-dns", "no-cn", "org", "org-nonascii", "crl-valid", "crl-unparsable", "crl-ldap", "crl-noscheme", "san-dup-sni", "cn-ip", "cn-wildcard"])
+                  "cn-64-dns", "no-cn", "org", "org-nonascii", "crl-valid", "crl-unparsable", "crl-ldap", "crl-noscheme", "san-dup-sni", "cn-ip", "cn-wildcard",
+                  "san-mirror-identity", "san-mirror-identity", "san-mirror-all", "cn+san-mirror-identity"])
     if k == "none":
         return k, None, True
     h = rhost(r)
     kw = {"cn": h, "sans": None}
+    first = sni if sni is not None else sock
+    if k in ("san-mirror-identity", "san-mirror-all", "cn+san-mirror-identity"):
+        idents = [first] + ([addr[0]] if addr and k != "san-mirror-identity" else [])
+        sans = mirror_sans(r, idents)
+        if r.random() < 0.5:
+            sans.insert(r.randrange(len(sans) + 1), f"dns:{h}")
+        kw["sans"] = sans or [f"dns:{h}"]
+        if k == "cn+san-mirror-identity":
+            bare = first.partition("%")[0].rstrip(".")
+            kw["cn"] = bare if 0 < len(bare) <= 64 and all(0 < len(x) <= 63 for x in (bare.split(".") if not _is_ip(bare) else ["x"])) else h
+        cert = pki.leaf(issuer="root_b", **kw)
+        return k, cert, True
     if k == "option-off":
         kw["sans"] = ["dns:leak." + h, "ip:198.51.100.77"]
         kw["org"] = "Leaky Org"
@@ -198,6 +242,15 @@ def gen_upstream(r, pki, sni):
         kw["cn"] = "*." + h
     cert = pki.leaf(issuer="root_b", **kw)
     return k, cert, k != "option-off"
+
+
+def _sans_repr(cert):
+    if cert is None:
+        return None
+    try:
+        return [repr(g)[:80] for g in cert.extensions.get_extension_for_class(x509.SubjectAlternativeName).value][:12]
+    except x509.ExtensionNotFound:
+        return None
 
 
 def _is_ip(s):
@@ -493,7 +546,7 @@ def run_case(ctx, r):
     pki, ta, tctx = st["pki"], st["ta"], st["tctx"]
     sni_k, sni, sock = gen_sni(r)
     addr_k, addr = gen_addr(r, sni)
-    up_k, upstream, use_opt = gen_upstream(r, pki, sni)
+    up_k, upstream, use_opt = gen_upstream(r, pki, sni, sock, addr)
     ca_k = r.choice(["default", "default", "custom"])
     via_hook = r.random() < 0.3
     if st["upstream_opt"] != use_opt:
@@ -516,7 +569,7 @@ def run_case(ctx, r):
     w = {
         "sni": sni, "sockname": sock, "server_address": list(addr) if addr else None, "upstream_class": up_k, "upstream_cert_option": use_opt,
         "upstream_subject": upstream.subject.rfc4514_string() if upstream is not None else None,
-        "upstream_sans": [repr(g)[:80] for g in upstream.extensions.get_extension_for_class(x509.SubjectAlternativeName).value] if upstream is not None and up_k not in ("cn-dns", "cn-spaces", "cn-nonascii", "cn-emptylabel", "cn-label64", "cn-64-dns", "org-nonascii", "crl-unparsable", "crl-ldap", "crl-noscheme", "cn-ip", "cn-wildcard") else None,
+        "upstream_sans": _sans_repr(upstream),
         "ca": ca_k, "via": "tls_start_client" if via_hook else "get_cert", "identity": ident,
     }
     sig = (sni_k, addr_k, up_k, ca_k, "hook" if via_hook else "get")
